@@ -67,7 +67,9 @@ RULE = ("generated importable module: interface DAG of 1..5 interfaces (<= 2 bas
         "class object falsy (__len__ -> 0 or __bool__ -> False, inherited by subclasses), 25% declare a class "
         "old-style (`__implemented__ = I` in the body), 20% of the interfaces are created by a class statement "
         "inside a function or another class body and 15% of the classes inside another class body, all "
-        "published as module globals; a quarter of the argument "
+        "published as module globals; 30% of the cases name Interface itself in declarations (class-level and "
+        "instance-level) and a quarter of the directlyProvides / alsoProvides argument lists (instances and "
+        "classes) carry another class's specification implementedBy(D); a quarter of the argument "
         "lists pass a slice wrapped in a Declaration(...); every interface, class, class "
         "specification, class provides, instance provides and instance round-tripped with protocols 0..5 in the "
         "same process and into a fresh process; a case is non-trivial when some class specification or "
@@ -79,12 +81,22 @@ TRUSTED_BASE = ["harness/translate/reduce.py: the abstraction self.inherit -> im
                 "the pickle module itself (GLOBAL lookup, REDUCE, NEWOBJ/BUILD) is trusted, not modelled; "
                 "its by-name behaviour is observed with pickletools on every payload"]
 ASSUMPTIONS = ["the generated modules stay importable under the same name in the unpickling process",
-               "classes use the metaclass `type`; declarations name interfaces only (not Interface itself, not "
-               "other class specifications); specifications of super() objects are outside the statement",
+               "a metaclass other than `type` (generated: one that makes the class object falsy) is a global name in "
+               "the model: what the metaclass itself implements is not modelled, and nothing is declared on it",
+               "class specifications as declaration arguments are generated and modelled for directlyProvides / "
+               "alsoProvides on instances and classes (Provides / ClassProvides arguments); in classImplements / "
+               "classImplementsOnly / classImplementsFirst argument lists only interfaces (Interface itself included) "
+               "are generated: classImplementsOnly and classImplementsFirst keep a Declaration or specification "
+               "argument as one opaque base, which the model does not represent",
+               "specifications of super() objects, function-local classes (Python cannot pickle them) and qualname-"
+               "nested interfaces are outside the statement's 'importable' quantifier; nested classes and interfaces "
+               "created in functions or class bodies but published as module globals are generated",
                "for histories that are not module-ordered (a class is re-declared after one of its instances "
-               "received a declaration) the instance's declaration may be stale (C01); since the C01 repair a stale "
-               "declaration leaves the shared cache, so unpickling rebuilds the current one: for those histories the "
-               "interface lists of instance declarations are predicted by the model but not judged by the oracle",
+               "received a declaration) the instance's declaration may be stale (C01) and, since the C01 repair, no "
+               "longer shared: unpickling rebuilds the current one.  For those histories list(spec) equality of "
+               "instance declarations is not demanded; demanded instead (every history): the unpickled declaration "
+               "provides at least what the original does and nothing beyond what was named for the instance or its "
+               "class implements now, and identity wherever the declaration is still shared",
                "ClassProvides (and Provides that are no longer shared) are rebuilt on unpickling: Python's == / hash "
                "on them are identity based, so 'equal' is judged as 'same interfaces' as the task statement directs"]
 
@@ -226,6 +238,19 @@ def _gen_case(rng, force=None):
         rng.shuffle(ops)
     ops += [["iby", c] for c in range(nc)]
     case = {"ifaces": ifaces, "classes": classes, "insts": insts, "ops": ops, "builtin": builtin}
+    # declarations that name Interface itself (any operation) and another class's specification
+    # (implementedBy(D) as an argument of directlyProvides / alsoProvides on instances and classes)
+    if rng.random() < 0.3:
+        case["root"] = True
+    n_args = ni + (1 if case.get("root") else 0)
+    for op in ops:
+        wrapped = any(isinstance(e, list) for e in op[3:])
+        if case.get("root") and op[0] in ("impl", "only", "cprov", "cap", "dp", "ap") and rng.random() < 0.3:
+            op[2].insert(rng.randint(0, len(op[2])), ni) if not wrapped else op[2].append(ni)
+        elif case.get("root") and op[0] == "first" and rng.random() < 0.15:
+            op[2] = ni
+        if op[0] in ("cprov", "cap", "dp", "ap") and rng.random() < 0.25:
+            op[2].append(n_args + rng.randrange(nc))    # appended: never inside a Declaration(...) group
     # class objects that are falsy (metaclass __len__ -> 0 / __bool__ -> False), inherited by subclasses
     if plain and rng.random() < 0.3:
         case["falsy"] = rng.choice(["len", "bool"])
@@ -326,6 +351,18 @@ def generate(run, tier):
                                           ["ap", 2, [2]]] + [list(o) for o in late]
         ops += [["iby", c] for c in range(3)]
         cases.append(dict(lbase, ops=ops))
+    # Interface itself (argument 4) and class specifications (5 + class) as declaration arguments
+    sbase = {"ifaces": [[], [0], [], [1]], "classes": [[], [0], []], "insts": [[1, [1]], [2, []], [0, []]], "builtin": {},
+             "root": True}
+    for shape in (
+        [["impl", 0, [1], True], ["impl", 2, [4], False], ["dp", 0, [7, 4, 2]], ["dp", 1, [5]], ["cprov", 2, [5, 4]],
+         ["ap", 1, [3]], ["dp", 2, [6, 5]]],
+        [["only", 1, [4, 2], True], ["first", 2, 4], ["cprov", 0, [6]], ["cap", 0, [4, 7]], ["dp", 0, [4]], ["ap", 0, [0]],
+         ["dp", 1, [7, 3]], ["ap", 1, [5]], ["nl", 1, 3]],
+        [["impl", 0, [3], False], ["dp", 2, [5, 2]], ["dp", 0, [7, 6]], ["only", 0, [2], True], ["gc"], ["ap", 0, [1]]],
+    ):
+        ops = [list(o) for o in shape] + [["iby", c] for c in range(3)]
+        cases.append(dict(sbase, ops=ops))
     for k in range(n):
         cases.append(_gen_case(rng, force="only" if k % 4 == 0 else None))
     return cases
@@ -418,18 +455,23 @@ def _obs_groups(obs_list):
 def coq_case(case, obs, mode):
     if "items" not in obs:
         # the case could not be built at all: an empty observation list fails both checks
-        world = "(mkWorld [] [] [] [] [] [])"
+        world = "(mkWorld [] [] [] [] [] [] None)"
         return "(%s, [], [mkItem (ItIface 0) RNone [] [] [] []])" % world
     names = obs["names"]
+    n_if = len(case["ifaces"])
+    root = bool(case.get("root"))
+    # with "root", Interface itself is interface number n_if and the base of every interface without others
+    ibases = [(bs if (bs or not root) else [n_if]) for bs in case["ifaces"]] + ([[]] if root else [])
     world = "(mkWorld %s %s %s)" % (
-        C.clist(["(%s, %s)" % (_gname(nm), _lnat(bs)) for nm, bs in zip(names["inames"], case["ifaces"])]),
+        C.clist(["(%s, %s)" % (_gname(nm), _lnat(bs)) for nm, bs in zip(names["inames"], ibases)]),
         C.clist(["(%s, %s)" % (_gname(nm), _lnat(bs)) for nm, bs in zip(names["cnames"], case["classes"])]),
         C.clist(["(%d, %s)" % (cl, C.clist([C.cZ(v) for v in attrs])) for cl, attrs in case["insts"]])
         + " " + _lnat(sorted(int(c) for c in case.get("builtin", {})))
         + " " + C.clist(["(%d, %s)" % (c, _gname(nm)) for c, nm in sorted(
             (int(c), nm) for c, nm in names.get("metas", {}).items())])
         + " " + C.clist(["(%d, %s)" % (int(c), _lnat(xs)) for c, xs in sorted(
-            case.get("oldstyle", {}).items(), key=lambda kv: int(kv[0]))]))
+            case.get("oldstyle", {}).items(), key=lambda kv: int(kv[0]))])
+        + (" (Some %d)" % n_if if root else " None"))
     ops = C.clist([_op(o) for o in case["ops"]])
     items = []
     for rec in obs["items"]:
@@ -556,22 +598,23 @@ def replay_text(case, obs, mode):
              "MODULE = r'''", _module_source(case), "'''",
              "import pickle, gc, zi_c13_case as m",
              "from zope.interface import implementedBy, providedBy, directlyProvides, alsoProvides",
-             "from zope.interface import noLongerProvides, directlyProvidedBy",
+             "from zope.interface import noLongerProvides, directlyProvidedBy, Interface",
              "from zope.interface.declarations import Declaration",
              "for f in m._CLASS_OPS: f()   # (the driver interleaves these with the instance operations below)",
              "insts = [%s]" % ", ".join("m.C%d()" % cl for cl, _ in case["insts"])]
     ns = _driver_ns()
+    nm = ns["arg_namer"](case, "m.")
     for op in case["ops"]:
         kind, tgt, arg, alt, wrap = ns["parse_op"](op)
         if kind == "dp":
-            lines.append("directlyProvides(insts[%d], %s)" % (tgt, ns["ifs_expr"](arg, wrap, "m.I%d")))
+            lines.append("directlyProvides(insts[%d], %s)" % (tgt, ns["ifs_expr"](arg, wrap, nm)))
         elif kind == "ap" and alt:
             lines.append("directlyProvides(insts[%d], directlyProvidedBy(insts[%d]), %s)"
-                         % (tgt, tgt, ns["ifs_expr"](arg, wrap, "m.I%d")))
+                         % (tgt, tgt, ns["ifs_expr"](arg, wrap, nm)))
         elif kind == "ap":
-            lines.append("alsoProvides(insts[%d], %s)" % (tgt, ns["ifs_expr"](arg, wrap, "m.I%d")))
+            lines.append("alsoProvides(insts[%d], %s)" % (tgt, ns["ifs_expr"](arg, wrap, nm)))
         elif kind == "nl":
-            lines.append("try: noLongerProvides(insts[%d], m.I%d)\nexcept ValueError: pass" % (tgt, arg))
+            lines.append("try: noLongerProvides(insts[%d], %s)\nexcept ValueError: pass" % (tgt, nm(arg)))
         elif kind == "gc":
             lines.append("gc.collect()")
     if fb is not None:
@@ -606,8 +649,9 @@ LEVEL_TEXT = ("Machine-checked theorems (Properties/C13.v, 25 theorems, closed u
               "identities and interface lists are compared with both implementations (same process and fresh "
               "process, protocols 0..5) on every run and the raw observations are judged by the statement itself.")
 LEVEL_NOTE = ("Trusted: Coq kernel/vm_compute; the pickle module (GLOBAL/REDUCE/NEWOBJ) is not modelled, only its "
-              "arguments, and its payloads are scanned with pickletools; the resolution order (flattened) is compared "
-              "before/after but not modelled here.  ClassProvides objects are rebuilt, not shared: `==`/hash of a "
-              "directly pickled class.__provides__ are identity based and therefore False; per the task statement "
-              "they are judged by their interfaces.  Stale instance declarations (interleaved histories) are "
-              "outside the oracle's list comparison (see assumptions).")
+              "arguments, and its payloads are scanned with pickletools; the translator's abstraction table "
+              "(harness/translate/reduce.py); the resolution order (flattened) is compared before/after and bounded "
+              "but not modelled here.  ClassProvides objects are rebuilt, not shared: `==`/hash of a directly pickled "
+              "class.__provides__ are identity based and therefore False; per the task statement they are judged by "
+              "their interfaces.  Metaclasses are names only; specification arguments of the classImplements family "
+              "and super() specifications are not generated (see assumptions).")
